@@ -31,6 +31,7 @@ def shards(tier, seed):
     out = [dict(seed=seed * 1000 + i, n=n) for i in range(16)]
     # the small space (30 rulebooks x 104 x 104 ordered config pairs), exhaustively in the thorough tier, one 64th of it
     # (chosen by the seed) in the quick tier
+    out += [dict(kind="chain", seed=seed * 1000 + 700 + i, n=150 if tier == "quick" else 10000) for i in range(4)]
     if tier == "quick":
         out += [dict(kind="small", part=(seed * 4 + i) % 256, parts=256) for i in range(4)]
     else:
@@ -38,7 +39,71 @@ def shards(tier, seed):
     return out
 
 
+CHAIN_PTEXT = ("p *\n    t *  %rewrite\n        u *\n            v ~  %rewrite\n        w ~  %rewrite\n"
+               "    k *\n        v ~  %rewrite\nb\n")
+
+
+def gen_chain(rng):
+    """rulebooks whose %rewrite levels are separated by a default-logic level (p / t %rewrite / u / v %rewrite): the inner
+    group must know that it is nested although the marker is not directly above it"""
+    def vs():
+        return [["v " + x, []] for x in rng.sample(["a", "b", "c"], rng.randint(0, 3))]
+
+    def t_block():
+        rows = []
+        for u in rng.sample(["u 1", "u 2"], rng.randint(0, 2)):
+            rows.append([u, vs()])
+        rows += [["w " + x, []] for x in rng.sample(["x", "y"], rng.randint(0, 2))]
+        rng.shuffle(rows)
+        return rows
+
+    def cfg():
+        out = []
+        for p_ in rng.sample(["p 1", "p 2"], rng.randint(1, 2)):
+            ch = [[t, t_block()] for t in rng.sample(["t 1", "t 2"], rng.randint(0, 2))]
+            if rng.random() < 0.4:
+                ch.append(["k 1", vs()])
+            out.append([p_, ch])
+        if rng.random() < 0.3:
+            out.append(["b", []])
+        return out
+
+    def mutate(t):
+        import copy as _c
+        t = _c.deepcopy(t)
+        # one small change somewhere: so that other rewrite groups of the same block stay identical
+        blocks = [x for x in t if x[1]]
+        if not blocks:
+            return cfg()
+        blk = rng.choice(blocks)
+        tb = [x for x in blk[1] if x[0].startswith("t ") and x[1]]
+        if tb and rng.random() < 0.8:
+            tgt = rng.choice(tb)[1]
+            r = rng.random()
+            if r < 0.4:
+                tgt.append(["w " + rng.choice(["z", "q"]), []])
+            elif r < 0.7 and tgt:
+                tgt.pop(rng.randrange(len(tgt)))
+            else:
+                us = [x for x in tgt if x[0].startswith("u ")]
+                if us:
+                    rng.choice(us)[1].append(["v " + rng.choice(["d", "e"]), []])
+                else:
+                    tgt.append(["u 3", [["v a", []]]])
+        else:
+            blk[1].append(["t 3", [["w x", []]]])
+        return t
+    old = cfg()
+    new = mutate(old) if rng.random() < 0.8 else cfg()
+    return dict(vendor=rng.choice(["huawei", "cisco"]), ptext=CHAIN_PTEXT, otext="", old=old, new=new)
+
+
 def gen(desc):
+    if desc.get("kind") == "chain":
+        rng = random.Random(desc["seed"])
+        for _ in range(desc["n"]):
+            yield gen_chain(rng)
+        return
     if desc.get("kind") == "small":
         yield from rbgen.small_cases(desc["part"], desc["parts"])
         return
